@@ -1,4 +1,4 @@
-//@serves C10 C11 C14 C17 C16
+//@serves C10 C11 C14 C17 C16 C06
 //@tier A
 //@include prelude/head.rs
 verus! {
@@ -105,6 +105,13 @@ impl RootRef<'_> {
 impl Root {
 //@use root.Root.from_fd
 //@use root.Root.create
+}
+impl vstd::std_specs::convert::FromSpecImpl<Root> for OwnedFd {
+    open spec fn obeys_from_spec() -> bool { true }
+    open spec fn from_spec(r: Root) -> OwnedFd { r.inner }
+}
+impl From<Root> for OwnedFd {
+//@use root.From_Root_for_OwnedFd
 }
 //@item src/capi/utils.rs :: struct CBorrowedFd | sub.CBorrowedFd
 impl<'fd> CBorrowedFd<'fd> {
